@@ -108,6 +108,7 @@ mod voronoi;
 #[cfg(feature = "verif")]
 pub use voronoi::verif_hooks as verif;
 pub use voronoi::{
-    convex_cell::Vertex, half_space::HalfSpace, integrals, ConvexCell, Dimensionality, Voronoi,
+    convex_cell::{ConvexCellMarker, Vertex, WithFaces, WithoutFaces},
+    half_space::HalfSpace, integrals, ConvexCell, Dimensionality, Voronoi,
     VoronoiCell, VoronoiFace, VoronoiIntegrator,
 };
